@@ -1,3 +1,144 @@
+import Driver.Util
 import Driver.Loop
-/- placeholder: the C11 view has no executable model yet -/
-def main : IO Unit := Drv.runLoop fun _ => .atom "bad-op"
+import PMV.Model.Pickle
+/- line-protocol handler for the C11 view: runs the structural pickling model with identity
+   codecs (bz2 = identity on bytes, fpzip = a length-prefixed serialisation) -/
+namespace Drv.C11
+open PMV PMV.Pickle Drv
+
+def params : Params :=
+  { cutoff := 200, bz2 := Codec.id Blob, fpzip := Codec.lenPrefixed,
+    lossyEnc := fun _ _ _ => [], lossyDec := fun _ => [] }
+
+/-! parsing -/
+
+def parseDType : Sx → Option DType
+  | .atom "f" => some .float
+  | .atom "b" => some .bool
+  | .list [.atom "i", w, s] => do some (.int (← w.toNat?) (← s.toBool?))
+  | _ => none
+
+def parseDigit : Sx → Option Digits
+  | .atom "D" => some .double | .atom "S" => some .single | .atom "N" => some .num | _ => none
+
+def parseDigits : Sx → Option (Option (Digits × Digits))
+  | .atom "-" => some none
+  | .list [a, b] => do some (some (← parseDigit a, ← parseDigit b))
+  | _ => none
+
+def parseVals : Sx → Option Vals
+  | .list [.atom "S", x] => do some (.single (← x.toNat?))
+  | .list [.atom "A", vs, .list items] => do
+    some (.array (← vs.nats?) (← items.mapM Sx.nats?))
+  | _ => none
+
+def parseMaskC : Sx → Option Mask
+  | .atom "T" => some (.scalar true)
+  | .atom "F" => some (.scalar false)
+  | x => x.bools?.map Mask.array
+
+def parseObj : Sx → Option Obj
+  | .list [.atom cls, sh, nu, de, dt, vals, mask, units, ro, vw, mw, dflt, dig, fz] => do
+    some { cls := cls, shape := ← sh.nats?, numer := ← nu.nats?, denom := ← de.nats?,
+           dtype := ← parseDType dt, vals := ← parseVals vals, mask := ← parseMaskC mask,
+           units := ← units.toNat?, readonly := ← ro.toBool?, valsW := ← vw.toBool?,
+           maskW := ← mw.toBool?, default := ← dflt.nats?, digits := ← parseDigits dig, cache := [],
+           fpzipFails := ← fz.toBool? }
+  | _ => none
+
+def parseQ : Sx → Option QObj
+  | .list [o, .list ds] => do
+    let self ← parseObj o
+    let derivs ← ds.mapM fun
+      | .list [.atom k, d] => do some (k, ← parseObj d)
+      | _ => none
+    some ⟨self, derivs⟩
+  | _ => none
+
+/-! rendering -/
+
+def kindSx : Kind → Sx
+  | .float => .atom "f" | .int => .atom "i" | .bool => .atom "b"
+def dtypeSx : DType → Sx
+  | .float => .atom "f" | .bool => .atom "b"
+  | .int w s => .list [.atom "i", Sx.ofNat w, Sx.ofBool s]
+def digitSx : Digits → Sx
+  | .double => .atom "D" | .single => .atom "S" | .num => .atom "N"
+def itemsSx (items : List Item) : Sx := .list (items.map Sx.ofNats)
+
+def vstepSx : VStep → Sx
+  | .allMasked => .list [.atom "AM"]
+  | .antimasked => .list [.atom "ANTI"]
+  | .float d => .list [.atom "FLOAT", digitSx d]
+  | .int v (some (w, s)) => .list [.atom "INT", Sx.ofNats v, .list [Sx.ofNat w, Sx.ofBool s]]
+  | .int v none => .list [.atom "INT", Sx.ofNats v]
+  | .bool v sz => .list [.atom "BOOL", Sx.ofNats v, Sx.ofNat sz]
+def mstepSx : MStep → Sx
+  | .corners lo hi => .list [.atom "CORNERS", Sx.ofNats lo, Sx.ofNats hi]
+  | .bool v sz => .list [.atom "BOOL", Sx.ofNats v, Sx.ofNat sz]
+
+def pvSx : PV → Sx
+  | .single x => .list [.atom "S", Sx.ofNat x]
+  | .none => .atom "N"
+  | .floats (.literal v items) => .list [.atom "L", Sx.ofNats v, itemsSx items]
+  | .floats (.f64 v bits blob) => .list [.atom "F64", Sx.ofNats v, Sx.ofNat bits, itemsSx (params.fpzip.dec blob)]
+  | .floats (.other v _) => .list [.atom "O", Sx.ofNats v]
+  | .blob b => .list [.atom "B", Sx.ofNats (params.bz2.dec b)]
+  | .arr _ v items _ => .list [.atom "A", Sx.ofNats v, itemsSx items]
+def pmSx : PM → Sx
+  | .scalar b => Sx.ofBool b
+  | .blob b => .list [.atom "B", Sx.ofNats (params.bz2.dec b)]
+  | .arr bits => Sx.ofBools bits
+
+def stSx (s : St) : Sx :=
+  .list [.atom s.cls, Sx.ofNats s.shape, Sx.ofNats s.numer, Sx.ofNats s.denom, Sx.ofNat s.units,
+         Sx.ofBool s.readonly, Sx.ofNats s.default, kindSx s.kind,
+         .list [digitSx s.digits.1, digitSx s.digits.2], pvSx s.vals, pmSx s.mask,
+         .list (s.valsEnc.map vstepSx), .list (s.maskEnc.map mstepSx)]
+
+def qstSx (s : QSt) : Sx :=
+  .list [stSx s.self, .list (s.derivs.map fun kd => .list [.atom kd.1, stSx kd.2])]
+
+def objSx (o : Obj) : Sx :=
+  let arrayVals := match o.vals with | .array _ _ => true | .single _ => false
+  let arrayMask := match o.mask with | .array _ => true | .scalar _ => false
+  .list [.atom o.cls, Sx.ofNats o.shape, Sx.ofNats o.numer, Sx.ofNats o.denom, dtypeSx o.dtype,
+         (match o.vals with
+          | .single x => .list [.atom "S", Sx.ofNat x]
+          | .array v items => .list [.atom "A", Sx.ofNats v, itemsSx items]),
+         (match o.mask with | .scalar b => Sx.ofBool b | .array bits => Sx.ofBools bits),
+         Sx.ofNat o.units, Sx.ofBool o.readonly,
+         (if arrayVals then Sx.ofBool o.valsW else .atom "-"),
+         (if arrayMask then Sx.ofBool o.maskW else .atom "-"),
+         Sx.ofNats o.default]
+
+def qobjSx (q : QObj) : Sx :=
+  .list [objSx q.self, .list (q.derivs.map fun kd => .list [.atom kd.1, objSx kd.2])]
+
+def legacyQ (s : QSt) : QSt := ⟨s.self.legacy, s.derivs.map fun kd => (kd.1, kd.2.legacy)⟩
+
+def handle : List Sx → Sx
+  | [.atom mode, q] =>
+    match parseQ q with
+    | none => err "object"
+    | some q =>
+      let s := (getstate params q).1
+      match mode with
+      | "st" => .list [qstSx s]
+      | "rt" =>
+        match setstate params s with
+        | some r => .list [qstSx s, qobjSx r]
+        | none => .list [qstSx s, .atom "ValueError"]
+      | "legacy" =>
+        match setstate params (legacyQ s) with
+        | some r => .list [qstSx (legacyQ s), qobjSx r]
+        | none => .list [qstSx (legacyQ s), .atom "ValueError"]
+      | _ => err "mode"
+  | _ => err "c11-op"
+
+end Drv.C11
+
+def main : IO Unit := Drv.runLoop fun x =>
+  match x with
+  | .list (.atom "c11" :: rest) => Drv.C11.handle rest
+  | _ => .atom "bad-op"
